@@ -1,9 +1,10 @@
-(** DInv for Db/Machine.v, part 2 (fixed control flow, [midcheck = true]): the
-    ghost cursor is never [Lost] outside control states that are certain to end
-    in a boundary snapshot.  This is where G1/G2 (litestream's read mark and its
-    write-lock barrier constrain WAL restarts), the unconditional TRUNCATE
-    snapshot, and for FULL/RESTART the header re-read after the PRAGMA plus the
-    frame-count rule are used.  The only side condition is [window_ok]. *)
+(** DInv for Db/Machine.v, part 2 (control flow with both fixes, [midcheck =
+    postcopy = true]): the ghost cursor is never [Lost] outside control states
+    that are certain to end in a boundary snapshot.  This is where G1/G2
+    (litestream's read mark and its write-lock barrier constrain WAL restarts),
+    the unconditional TRUNCATE snapshot, and for FULL/RESTART the header re-read
+    after the PRAGMA and the copy that follows it are used.  The only side
+    condition is [window_ok]. *)
 From Coq Require Import List NArith Bool Lia Arith.
 From LS Require Import Db.Image Db.Machine Db.MachineLemmas Db.MachineInv.
 Import ListNotations.
@@ -13,10 +14,13 @@ Section Safe.
 Variable data : Type.
 Variable zero : data.
 Variable lock : N.
+(** [recheck]: the proposed header re-read after the post-checkpoint copy; the
+    proofs below cover both values, [window_ok] is trivial when it is [true] *)
+Variable recheck : bool.
 
 Local Notation state := (state data).
 Local Notation inv := (inv data zero lock).
-Local Notation step := (step data lock true).
+Local Notation step := (step data lock true true recheck).
 
 (** everything of the live generation is replicated (or nothing was ever replicated) *)
 Definition at_end (s : state) : Prop :=
@@ -26,14 +30,14 @@ Definition at_end (s : state) : Prop :=
 (** control states that end in the unconditional boundary snapshot *)
 Definition pendingb (p : pcT) : bool :=
   match p with
-  | PReleased Truncate _ _ | PCkpted Truncate _ _ _ | PUnlocked Truncate _ _ _ _
-  | PBumped Truncate _ _ _ _ | PBoundary | PBoundLocked => true
+  | PReleased Truncate _ _ | PCkpted Truncate _ _ _ | PMid Truncate _ _ _ _
+  | PUnlocked Truncate _ _ _ _ | PBumped Truncate _ _ _ _ | PBoundary | PBoundLocked => true
   | _ => false
   end.
 (** PASSIVE: between the sealed copy and the rollback of the barrier *)
 Definition sealedb (p : pcT) : bool :=
   match p with
-  | PSealed _ | PReleased Passive _ _ | PCkpted Passive _ _ _ => true
+  | PSealed _ | PReleased Passive _ _ | PCkpted Passive _ _ _ | PMid Passive _ _ _ _ => true
   | _ => false
   end.
 Definition lockedb (p : pcT) : bool :=
@@ -42,59 +46,50 @@ Definition relb (p : pcT) : bool :=
   match p with PReleased _ _ _ | PCkpted _ _ _ _ => true | _ => false end.
 Definition post_truncb (p : pcT) : bool :=
   match p with
-  | PCkpted Truncate _ _ _ | PUnlocked Truncate _ _ _ _ | PBumped Truncate _ _ _ _ => true
+  | PCkpted Truncate _ _ _ | PMid Truncate _ _ _ _ | PUnlocked Truncate _ _ _ _
+  | PBumped Truncate _ _ _ _ => true
   | _ => false
   end.
 Definition hg_of (p : pcT) : option nat :=
   match p with
   | PHdr _ hg | PCopied _ hg | PLocked hg | PSealed hg | PReleased _ hg _
-  | PCkpted _ hg _ _ | PUnlocked _ hg _ _ _ | PBumped _ hg _ _ _ => Some hg
+  | PCkpted _ hg _ _ | PMid _ hg _ _ _ | PPost _ hg _ _ | PUnlocked _ hg _ _ _ | PBumped _ hg _ _ _ => Some hg
   | _ => None
   end.
 Definition closedb (p : pcT) : bool := match p with Closed => true | _ => false end.
+Definition rb_of (p : pcT) : bool :=
+  match p with PMid _ _ _ _ rb | PUnlocked _ _ _ _ rb | PBumped _ _ _ _ rb => rb | _ => false end.
 
-(** FULL/RESTART: read transaction released, header not yet re-read: a reset
-    here is caught by the re-read *)
+(** FULL/RESTART states in which a WAL reset is harmless: either the header
+    re-read is still to come (it will see the reset), or it has already decided
+    for the boundary snapshot *)
 Definition frfreeb (p : pcT) : bool :=
-  match p with PReleased m _ _ | PCkpted m _ _ _ => frb m | _ => false end.
-(** FULL/RESTART after the re-read: the boundary snapshot is already decided *)
-Definition frpost_okb (p : pcT) : bool :=
   match p with
-  | PUnlocked m _ pre wn rb | PBumped m _ pre wn rb => frb m && (rb || (pre <? wn))
+  | PReleased m _ _ | PCkpted m _ _ _ => frb m
+  | PMid m _ _ _ rb | PUnlocked m _ _ _ rb | PBumped m _ _ _ rb => frb m && rb
   | _ => false
   end.
 (** where a lost cursor is harmless for FULL/RESTART *)
 Definition lost_okb (p : pcT) (g : nat) : bool :=
   match p with
   | PReleased m hg _ | PCkpted m hg _ _ => frb m && (hg <? g)
-  | PUnlocked m hg pre wn rb | PBumped m hg pre wn rb => frb m && (hg <? g) && (rb || (pre <? wn))
+  | PMid m hg _ _ rb => frb m && (hg <? g) && (rb || recheck)
+  | PPost _ hg _ _ => recheck && (hg <? g)
+  | PUnlocked m hg _ _ rb | PBumped m hg _ _ rb => frb m && (hg <? g) && rb
   | _ => false
   end.
-Definition frpcb (p : pcT) : bool :=
-  match p with
-  | PCopied m _ | PReleased m _ _ | PCkpted m _ _ _ | PUnlocked m _ _ _ _ | PBumped m _ _ _ _ => frb m
-  | _ => false
-  end.
-Definition pre_of (p : pcT) : option nat :=
-  match p with
-  | PReleased _ _ pre | PCkpted _ _ pre _ | PUnlocked _ _ pre _ _ | PBumped _ _ pre _ _ => Some pre
-  | _ => None
-  end.
-Definition rb_of (p : pcT) : bool :=
-  match p with PUnlocked _ _ _ _ rb | PBumped _ _ _ _ rb => rb | _ => false end.
-(** (hg, walFrameN, bumped) of a FULL/RESTART protocol after its PRAGMA *)
-Definition vinfo (p : pcT) : option (nat * nat * bool) :=
-  match p with
-  | PCkpted m hg _ wn | PUnlocked m hg _ wn _ => if frb m then Some (hg, wn, false) else None
-  | PBumped m hg _ wn _ => if frb m then Some (hg, wn, true) else None
-  | _ => None
-  end.
+(** the copy of commit 6edd82b is due ([Machine.post_pending] with [postcopy = true]) *)
+Definition postpendb (p : pcT) : bool := post_pending true p.
+Definition ispostb (p : pcT) : bool := match p with PPost _ _ _ _ => true | _ => false end.
+Definition post_mode (p : pcT) : option mode := match p with PPost m _ _ _ => Some m | _ => None end.
+(** a WAL reset in this control state is harmless *)
+Definition freeb (p : pcT) : bool := frfreeb p || (recheck && (postpendb p || ispostb p)).
 
 Record safe (s : state) : Prop := mkSafe {
   s_K : wlock data s = false -> mark_low (ls_mark data s) = true ->
         backfilled data s = length (txs data s) ->
         at_end s \/ pendingb (pc data s) = true \/ closedb (pc data s) = true \/
-        frfreeb (pc data s) = true \/ frpost_okb (pc data s) = true;
+        freeb (pc data s) = true \/ postpendb (pc data s) = true;
   s_S : sealedb (pc data s) = true -> wlock data s = true /\ at_end s;
   s_W : lockedb (pc data s) = true -> wlock data s = true;
   s_L : cur data s = Lost ->
@@ -107,14 +102,10 @@ Record safe (s : state) : Prop := mkSafe {
   s_N : ls_mark data s = None ->
         opened data s = false \/ relb (pc data s) = true \/ closedb (pc data s) = true;
   s_P : opened data s = false -> pc data s = Idle;
-  s_R : forall pre, pre_of (pc data s) = Some pre -> pre = cfo data s;
-  s_X : frpcb (pc data s) = true -> forall hg, hg_of (pc data s) = Some hg ->
-        gen data s = hg -> exists c, cur data s = AtLive c;
-  s_V : forall hg wn bb, vinfo (pc data s) = Some (hg, wn, bb) -> gen data s = hg ->
-        wn <= flen data (txs data s) /\
-        (backfilled data s = length (txs data s) -> mark_low (ls_mark data s) = true ->
-         flen data (txs data s) = wn) /\
-        (bb = true -> wn < flen data (txs data s)) }.
+  s_F : forall m, post_mode (pc data s) = Some m -> frb m = true;
+  s_Q : ispostb (pc data s) = true -> forall hg, hg_of (pc data s) = Some hg -> gen data s = hg ->
+        wlock data s = false -> mark_low (ls_mark data s) = true ->
+        backfilled data s = length (txs data s) -> at_end s }.
 
 Lemma flen_firstn_le (ts : list (tx data)) c : flen data (firstn c ts) <= flen data ts.
 Proof.
@@ -268,17 +259,20 @@ Qed.
 
 (** ** commits *)
 
+
+(** ** commits *)
+
 Lemma do_commit_facts s t r s' :
   inv s -> safe s -> do_commit data s t r = Some s' ->
   wlock data s = false /\ wlock data s' = false /\
   backfilled data s' < length (txs data s') /\
   ls_mark data s' = ls_mark data s /\ pc data s' = pc data s /\
-  opened data s' = opened data s /\ l0 data s' = l0 data s /\ cfo data s' = cfo data s /\
-  ((gen data s' = gen data s /\ cur data s' = cur data s /\ txs data s' = txs data s ++ [t]) \/
-   (gen data s' = S (gen data s) /\
+  opened data s' = opened data s /\ l0 data s' = l0 data s /\
+  ((r = false /\ gen data s' = gen data s /\ cur data s' = cur data s) \/
+   (r = true /\ gen data s' = S (gen data s) /\
     (cur data s' = Lost ->
      l0 data s = [] \/ pendingb (pc data s) = true \/ closedb (pc data s) = true \/
-     frfreeb (pc data s) = true \/ frpost_okb (pc data s) = true))).
+     freeb (pc data s) = true \/ postpendb (pc data s) = true))).
 Proof.
   intros H Hs. unfold do_commit.
   destruct (wlock data s) eqn:Ew; [discriminate|].
@@ -291,7 +285,7 @@ Proof.
     apply andb_prop in Een. destruct Een as [Eml Ebf]. apply Nat.eqb_eq in Ebf.
     intros E. inversion E; subst s'. clear E. cbn.
     repeat split; auto.
-    right. split; [reflexivity|]. intros HL.
+    right. split; [reflexivity|]. split; [reflexivity|]. intros HL.
     destruct (s_K _ Hs Ew Eml Ebf) as [A|A]; [|right; exact A].
     destruct A as [A|[A|[_ A]]].
     + left. exact A.
@@ -304,26 +298,14 @@ Qed.
 (** ** facts about control states *)
 
 Lemma lost_ok_intro p g :
-  frfreeb p = true \/ frpost_okb p = true ->
-  (forall hg, hg_of p = Some hg -> hg < g) -> lost_okb p g = true.
+  freeb p = true -> (forall hg, hg_of p = Some hg -> hg < g) -> lost_okb p g = true.
 Proof.
-  intros Hd Hh.
-  destruct p; cbn -[Nat.ltb] in *; try (destruct Hd; discriminate);
+  intros Hd Hh. unfold freeb, postpendb in Hd.
+  destruct p as [| | | | |m ? ?|m ? ? ?|m ? ? ? rb|m ? ? ?|m ? ? ? rb|m ? ? ? rb| | | |];
+    cbn -[Nat.ltb] in *; rewrite ?andb_false_r in Hd; try discriminate;
     specialize (Hh _ eq_refl); apply Nat.ltb_lt in Hh; rewrite Hh;
-    destruct Hd as [A|A]; try discriminate; rewrite ?andb_true_r; try exact A.
-Qed.
-
-Lemma lost_ok_mono p g g' : g <= g' -> lost_okb p g = true -> lost_okb p g' = true.
-Proof.
-  intros Hle. destruct p; cbn -[Nat.ltb]; try discriminate; intros A.
-  - apply andb_prop in A. destruct A as [A1 A2]. apply Nat.ltb_lt in A2.
-    rewrite A1. cbn -[Nat.ltb]. apply Nat.ltb_lt. lia.
-  - apply andb_prop in A. destruct A as [A1 A2]. apply Nat.ltb_lt in A2.
-    rewrite A1. cbn -[Nat.ltb]. apply Nat.ltb_lt. lia.
-  - apply andb_prop in A. destruct A as [A A3]. apply andb_prop in A. destruct A as [A1 A2].
-    apply Nat.ltb_lt in A2. rewrite A1, A3. cbn -[Nat.ltb]. rewrite andb_true_r. apply Nat.ltb_lt. lia.
-  - apply andb_prop in A. destruct A as [A A3]. apply andb_prop in A. destruct A as [A1 A2].
-    apply Nat.ltb_lt in A2. rewrite A1, A3. cbn -[Nat.ltb]. rewrite andb_true_r. apply Nat.ltb_lt. lia.
+    rewrite ?andb_true_r; unfold needs_post in *; cbn in *;
+    destruct (frb m); try destruct rb; destruct recheck; cbn in *; try discriminate; reflexivity.
 Qed.
 
 Lemma lost_ok_hg p g : lost_okb p g = true -> exists hg, hg_of p = Some hg /\ hg < g.
@@ -333,69 +315,61 @@ Proof.
   - apply andb_prop in A. destruct A as [_ A]. apply Nat.ltb_lt in A. eauto.
   - apply andb_prop in A. destruct A as [A _]. apply andb_prop in A. destruct A as [_ A].
     apply Nat.ltb_lt in A. eauto.
+  - apply andb_prop in A. destruct A as [_ A]. apply Nat.ltb_lt in A. eauto.
+  - apply andb_prop in A. destruct A as [A _]. apply andb_prop in A. destruct A as [_ A].
+    apply Nat.ltb_lt in A. eauto.
   - apply andb_prop in A. destruct A as [A _]. apply andb_prop in A. destruct A as [_ A].
     apply Nat.ltb_lt in A. eauto.
 Qed.
 
-Lemma vinfo_hg p hg wn bb : vinfo p = Some (hg, wn, bb) -> hg_of p = Some hg.
-Proof.
-  destruct p; cbn; try discriminate;
-    match goal with |- (if ?c then _ else _) = _ -> _ => destruct c; [|discriminate] end;
-    intros A; inversion A; reflexivity.
-Qed.
-
 (** ** a commit that leaves the control state alone *)
 Lemma safe_commit_same s t r s1 :
-  inv s -> safe s -> t <> [] -> do_commit data s t r = Some s1 ->
-  safe s1 /\ (gen data s1 = gen data s -> flen data (txs data s) < flen data (txs data s1)).
+  inv s -> safe s -> (r = true -> recheck = true \/ postpendb (pc data s) = false) ->
+  do_commit data s t r = Some s1 -> safe s1.
 Proof.
-  intros H Hs Hne E.
-  destruct (do_commit_facts _ _ _ _ H Hs E) as [Hw [Hw' [Hbf [Hm [Hpc [Ho [Hl0 [Hcfo Hd]]]]]]]].
-  pose proof Hs as [K S W L T O N P R X V].
-  assert (Hgen : gen data s <= gen data s1) by (destruct Hd as [[A _]|[A _]]; lia).
-  assert (Hflen : gen data s1 = gen data s -> flen data (txs data s) < flen data (txs data s1)).
-  { intros A. destruct Hd as [[_ [_ B]]|[B _]]; [|lia].
-    rewrite B, flen_app. unfold flen at 3. cbn [concat]. rewrite app_nil_r.
-    destruct t; [contradiction|]. cbn. lia. }
-  split; [|exact Hflen].
-  constructor; rewrite ?Hpc, ?Hm, ?Ho, ?Hl0, ?Hcfo.
+  intros H Hs Hwin E.
+  destruct (do_commit_facts _ _ _ _ H Hs E) as [Hw [Hw' [Hbf [Hm [Hpc [Ho [Hl0 Hd]]]]]]].
+  pose proof Hs as [K S W L T O N P F Q].
+  assert (Hgen : gen data s <= gen data s1) by (destruct Hd as [[_ [A _]]|[_ [A _]]]; lia).
+  constructor; rewrite ?Hpc, ?Hm, ?Ho, ?Hl0.
   - intros _ _ A. lia.
   - intros A. destruct (S A) as [A2 _]. congruence.
   - intros A. pose proof (W A). congruence.
-  - intros A. destruct Hd as [[B1 [B2 _]]|[B1 B2]].
+  - intros A. destruct Hd as [[_ [B1 B2]]|[Br [B1 B2]]].
     + rewrite B1. apply L. congruence.
-    + destruct (B2 A) as [D|[D|[D|D]]]; auto.
-      right. right. right. apply lost_ok_intro; [exact D|].
-      intros hg Hh. destruct (T hg Hh) as [T1 _]. lia.
+    + assert (Hlt : forall hg, hg_of (pc data s) = Some hg -> hg < gen data s1).
+      { intros hg Hh. destruct (T hg Hh) as [T1 _]. lia. }
+      destruct (B2 A) as [D|[D|[D|[D|D]]]]; auto.
+      * right. right. right. apply lost_ok_intro; assumption.
+      * destruct (Hwin Br) as [Hr|Hn]; [|congruence].
+        right. right. right. apply lost_ok_intro; [|assumption].
+        unfold freeb. rewrite Hr, D. cbn. apply orb_true_r.
   - intros hg A. destruct (T hg A) as [T1 [T2 T3]].
     split; [lia|]. split; intros B; [specialize (T2 B)|specialize (T3 B)]; lia.
   - exact O.
   - exact N.
   - exact P.
-  - exact R.
-  - intros A hg B C. destruct (T hg B) as [T1 _].
-    destruct Hd as [[B1 [B2 _]]|[B1 _]]; [|lia].
-    rewrite B2. apply (X A hg B). lia.
-  - intros hg wn bb A C. pose proof (vinfo_hg _ _ _ _ A) as Hh. destruct (T hg Hh) as [T1 _].
-    destruct Hd as [[B1 [B2 B3]]|[B1 _]]; [|lia].
-    destruct (V hg wn bb A) as [V1 [V2 V3]]; [lia|].
-    specialize (Hflen B1).
-    split; [lia|]. split; [intros; lia|]. intros D. lia.
+  - exact F.
+  - intros _ hg _ _ _ _ A. lia.
 Qed.
 
 (** ** environment steps *)
 
 Lemma safe_AppCommit s t r s' :
-  inv s -> safe s -> t <> [] -> step s (AppCommit data t r) = Some s' -> safe s'.
-Proof. intros H Hs Hne E. cbn in E. eapply safe_commit_same; eauto. Qed.
+  inv s -> safe s -> window_ok data true recheck s (AppCommit data t r) = true ->
+  step s (AppCommit data t r) = Some s' -> safe s'.
+Proof.
+  intros H Hs Hwin E. cbn in E. apply (safe_commit_same s t r s' H Hs); [|exact E].
+  intros Hr. subst r. cbn in Hwin. apply orb_prop in Hwin. destruct Hwin as [A|A]; [left; exact A|].
+  right. apply negb_true_iff in A. exact A.
+Qed.
 
 Lemma safe_AppCkpt s j sz s' :
-  inv s -> safe s -> window_ok data s (AppCkpt data j sz) = true ->
-  step s (AppCkpt data j sz) = Some s' -> safe s'.
+  inv s -> safe s -> step s (AppCkpt data j sz) = Some s' -> safe s'.
 Proof.
-  intros H Hs Hwin E. cbn in E.
+  intros H Hs E. cbn in E.
   destruct (ckpt_allowed data s j) eqn:Ea; [|discriminate]. inversion E; subst s'. clear E.
-  pose proof Hs as [K S W L T O N P R X V].
+  pose proof Hs as [K S W L T O N P F Q].
   unfold ckpt_allowed in Ea. apply andb_prop in Ea. destruct Ea as [_ Ea].
   constructor; cbn; try assumption.
   - intros Hw Hml Hj.
@@ -403,42 +377,42 @@ Proof.
     + apply Nat.eqb_eq in Ea. apply K; auto. congruence.
     + destruct (N eq_refl) as [A|[A|A]].
       * left. left. apply O. exact A.
-      * destruct (pc data s) as [| | | | |m0 ? ?|m0 ? ? ?| | | | | |]; try discriminate;
+      * destruct (pc data s) as [| | | | |m0 ? ?|m0 ? ? ?| | | | | | | |]; try discriminate;
           destruct m0; cbn in *; auto 6;
           destruct (S eq_refl) as [B _]; congruence.
       * auto.
-  - intros hg wn bb A C. destruct (V hg wn bb A C) as [V1 [V2 V3]].
-    split; [exact V1|]. split; [|exact V3].
-    intros Hj Hml.
+  - intros Hi hg Hh Hg Hw Hml Hj.
     destruct (ls_mark data s) as [[|m]|] eqn:Em; cbn in Hml; try discriminate.
-    + apply Nat.eqb_eq in Ea. apply V2; [congruence|reflexivity].
-    + destruct (pc data s) as [| | | | | |m0 ? ? ?|m0 ? ? ? ?|m0 ? ? ? ?| | | |] eqn:Epc; try discriminate.
-      * unfold window_ok in Hwin. rewrite Epc, Em in Hwin.
-        cbn in A. destruct (frb m0) eqn:Ef; [|discriminate]. cbn in Hwin.
-        rewrite Hj, Nat.eqb_refl in Hwin. cbn in Hwin. apply Nat.eqb_eq in Hwin.
-        apply V2; [exact Hwin|reflexivity].
-      * destruct (N eq_refl) as [B|[B|B]]; try discriminate. specialize (P B). discriminate.
-      * destruct (N eq_refl) as [B|[B|B]]; try discriminate. specialize (P B). discriminate.
+    + apply Nat.eqb_eq in Ea. apply (Q Hi hg Hh Hg Hw); [reflexivity|congruence].
+    + exfalso. destruct (N eq_refl) as [A|[A|A]].
+      * specialize (P A). rewrite P in Hi. discriminate.
+      * destruct (pc data s); discriminate.
+      * destruct (pc data s); discriminate.
 Qed.
 
 Lemma safe_AppTruncate s s' :
-  inv s -> safe s -> step s (AppTruncate data) = Some s' -> safe s'.
+  inv s -> safe s -> window_ok data true recheck s (AppTruncate data) = true ->
+  step s (AppTruncate data) = Some s' -> safe s'.
 Proof.
-  intros H Hs E. cbn in E.
+  intros H Hs Hwin E. cbn in E.
   destruct (reset_enabled data s) eqn:Een; [|discriminate]. inversion E; subst s'. clear E.
-  pose proof Hs as [K S W L T O N P R X V].
+  pose proof Hs as [K S W L T O N P F Q].
+  cbn in Hwin.
   unfold reset_enabled in Een. apply andb_prop in Een. destruct Een as [Een Ebf].
   apply andb_prop in Een. destruct Een as [Ew Eml].
   apply negb_true_iff in Ew. apply Nat.eqb_eq in Ebf.
   assert (Hcases : at_end (reset_st data s true) \/ pendingb (pc data s) = true \/
-                   closedb (pc data s) = true \/ frfreeb (pc data s) = true \/ frpost_okb (pc data s) = true).
-  { destruct (K Ew Eml Ebf) as [A|A]; [|right; exact A]. left.
-    unfold at_end. cbn. destruct A as [A|[A|[A B]]].
-    - left. exact A.
-    - right. right. rewrite A. cbn. rewrite Nat.eqb_refl. auto.
-    - right. right. rewrite A, B. cbn. auto. }
+                   closedb (pc data s) = true \/ freeb (pc data s) = true).
+  { destruct (K Ew Eml Ebf) as [A|[A|[A|[A|A]]]]; auto.
+    - left. unfold at_end. cbn. destruct A as [A|[A|[A B]]].
+      + left. exact A.
+      + right. right. rewrite A. cbn. rewrite Nat.eqb_refl. auto.
+      + right. right. rewrite A, B. cbn. auto.
+    - apply orb_prop in Hwin. destruct Hwin as [B|B].
+      + right. right. right. unfold freeb. rewrite B, A. cbn. apply orb_true_r.
+      + apply negb_true_iff in B. unfold postpendb in A. congruence. }
   constructor; cbn; try assumption.
-  - intros _ _ _. exact Hcases.
+  - intros _ _ _. destruct Hcases as [A|[A|[A|A]]]; auto 6.
   - intros A. destruct (S A) as [A2 _]. congruence.
   - intros HL. destruct Hcases as [A|[A|[A|A]]]; auto.
     + unfold at_end in A. cbn in A. destruct A as [A|[A|[A _]]]; [left; exact A| |]; congruence.
@@ -446,100 +420,15 @@ Proof.
       intros hg Hh. destruct (T hg Hh) as [T1 _]. lia.
   - intros hg A. destruct (T hg A) as [T1 [T2 T3]].
     split; [lia|]. split; intros B; [specialize (T2 B)|specialize (T3 B)]; lia.
-  - intros A hg B C. destruct (T hg B) as [T1 _]. lia.
-  - intros hg wn bb A C. pose proof (vinfo_hg _ _ _ _ A) as Hh. destruct (T hg Hh) as [T1 _]. lia.
+  - intros _ hg A B. destruct (T hg A) as [T1 _]. lia.
 Qed.
 
 (** ** litestream steps *)
-
-Lemma safe_sync_gen s k s1 p :
-  inv s -> safe s -> do_sync data lock s k = Some s1 ->
-  ((pc data s = Idle /\ p = Idle) \/ (exists m hg, pc data s = PHdr m hg /\ p = PCopied m hg) \/
-   (exists hg, pc data s = PLocked hg /\ p = PSealed hg) \/ (pc data s = PRecopy /\ p = Idle)) ->
-  safe (set_pc data s1 p).
-Proof.
-  intros H Hs Ed Hp. pose proof Hs as [K S W L T O N P R X V].
-  destruct (do_sync_frame _ _ _ Ed) as [F1 [F2 [F3 [F4 [F5 [F6 [F7 [F8 F9]]]]]]]].
-  destruct (do_sync_cur _ _ _ H Ed) as [C1 [C2 C3]].
-  assert (Hcls : pendingb (pc data s) = false /\ closedb (pc data s) = false /\
-                 frfreeb (pc data s) = false /\ frpost_okb (pc data s) = false /\
-                 lost_okb (pc data s) (gen data s) = false /\ relb (pc data s) = false).
-  { destruct Hp as [[Hp _]|[[m [hg [Hp _]]]|[[hg [Hp _]]|[Hp _]]]]; rewrite Hp; cbn; auto 10. }
-  destruct Hcls as [Q1 [Q2 [Q3 [Q4 [Q5 Q6]]]]].
-  assert (HnotLost : cur data s = Lost -> l0 data s = []).
-  { intros A. destruct (L A) as [B|[B|[B|B]]]; [exact B|congruence|congruence|congruence]. }
-  assert (HL1 : cur data s1 <> Lost).
-  { intros A. destruct (C2 A) as [B1 B2]. apply B2. apply HnotLost. exact B1. }
-  constructor; cbn; rewrite ?F1, ?F2, ?F3, ?F4, ?F6, ?F7.
-  - intros Hw Hml Hbf.
-    destruct (K Hw Hml Hbf) as [A|[A|[A|[A|A]]]]; try congruence.
-    left. unfold at_end in *. cbn. apply C1. exact A.
-  - intros A.
-    destruct Hp as [[Hp Hq]|[[m [hg [Hp Hq]]]|[[hg [Hp Hq]]|[Hp Hq]]]]; subst p; try discriminate.
-    assert (Hw : wlock data s = true) by (apply W; rewrite Hp; reflexivity).
-    split; [exact Hw|]. unfold at_end. cbn. right. left. rewrite F1.
-    apply C3; [unfold toend; rewrite Hw; reflexivity|exact HnotLost].
-  - intros A.
-    destruct Hp as [[Hp Hq]|[[m [hg [Hp Hq]]]|[[hg [Hp Hq]]|[Hp Hq]]]]; subst p; discriminate.
-  - intros A. contradiction.
-  - intros hg A.
-    destruct Hp as [[Hp Hq]|[[m [hg' [Hp Hq]]]|[[hg' [Hp Hq]]|[Hp Hq]]]]; subst p; try discriminate;
-      cbn in A; inversion A; subst; destruct (T hg) as [T1 _]; try (rewrite Hp; reflexivity);
-      (split; [exact T1|split; discriminate]).
-  - rewrite F8. discriminate.
-  - intros A. destruct (N A) as [B|[B|B]]; congruence.
-  - rewrite F8. discriminate.
-  - intros pre A.
-    destruct Hp as [[Hp Hq]|[[m [hg' [Hp Hq]]]|[[hg' [Hp Hq]]|[Hp Hq]]]]; subst p; discriminate.
-  - intros A hg B C.
-    destruct Hp as [[Hp Hq]|[[m [hg' [Hp Hq]]]|[[hg' [Hp Hq]]|[Hp Hq]]]]; subst p; try discriminate.
-    exists (length (txs data s)). apply C3; [|exact HnotLost].
-    unfold toend. rewrite Hp. cbn. apply orb_true_r.
-  - intros hg wn bb A.
-    destruct Hp as [[Hp Hq]|[[m [hg' [Hp Hq]]]|[[hg' [Hp Hq]]|[Hp Hq]]]]; subst p; discriminate.
-Qed.
-
-Lemma set_pc_self (s : state) : set_pc data s (pc data s) = s.
-Proof. destruct s. reflexivity. Qed.
-
-Lemma safe_LsSync s k s' :
-  inv s -> safe s -> step s (LsSync data k) = Some s' -> safe s'.
-Proof.
-  intros H Hs E. cbn in E.
-  destruct (pc data s) as [|m hg|m hg|hg|hg| | | | | | | |] eqn:Epc; try discriminate.
-  - destruct (do_sync_frame _ _ _ E) as [_ [_ [_ [_ [F5 _]]]]]. rewrite Epc in F5.
-    rewrite <- (set_pc_self s'). rewrite F5. eapply safe_sync_gen; eauto.
-  - destruct (do_sync data lock s k) eqn:Ed; [|discriminate]. inversion E; subst s'.
-    eapply safe_sync_gen; eauto. right. left. eauto.
-  - destruct (do_sync data lock s k) eqn:Ed; [|discriminate]. inversion E; subst s'.
-    eapply safe_sync_gen; eauto. right. right. left. eauto.
-  - destruct (do_sync data lock s k) eqn:Ed; [|discriminate]. inversion E; subst s'.
-    eapply safe_sync_gen; eauto.
-Qed.
 
 Ltac triv :=
   try assumption; try discriminate; try reflexivity;
   try solve [intros; congruence];
   try solve [intros; discriminate].
-
-Lemma safe_LsOpen s s' : inv s -> safe s -> step s (LsOpen data) = Some s' -> safe s'.
-Proof.
-  intros H Hs E. cbn in E. pose proof Hs as [K S W L T O N P R X V].
-  destruct (opened data s) eqn:Eo; [discriminate|]. destruct (pc data s) eqn:Epc; try discriminate.
-  inversion E; subst s'. clear E.
-  constructor; cbn; rewrite ?Epc; cbn; triv.
-  - intros _ _ _. left. left. apply O. reflexivity.
-  - unfold acquire. destruct (backfilled data s =? length (txs data s)); discriminate.
-Qed.
-
-Lemma safe_LsAck s s' : inv s -> safe s -> step s (LsAck data) = Some s' -> safe s'.
-Proof.
-  intros H Hs E. cbn in E. pose proof Hs as [K S W L T O N P R X V].
-  destruct (pc data s) eqn:Epc; try discriminate. destruct (l0 data s) eqn:El; [discriminate|].
-  destruct ((cgen data s =? gen data s) && (cfo data s =? flen data (txs data s))); [|discriminate].
-  inversion E; subst s'. clear E.
-  constructor; cbn; rewrite ?Epc, ?El in *; assumption.
-Qed.
 
 Ltac fin2 :=
   triv;
@@ -560,9 +449,132 @@ Ltac fin2 :=
              match goal with P : _ = false -> _ = Idle |- _ =>
                specialize (P A); first [congruence | discriminate] end].
 
+Lemma safe_sync_gen s k s1 p :
+  inv s -> safe s -> do_sync data lock s k = Some s1 ->
+  ((pc data s = Idle /\ p = Idle) \/ (exists m hg, pc data s = PHdr m hg /\ p = PCopied m hg) \/
+   (exists hg, pc data s = PLocked hg /\ p = PSealed hg) \/ (pc data s = PRecopy /\ p = Idle)) ->
+  safe (set_pc data s1 p).
+Proof.
+  intros H Hs Ed Hp. pose proof Hs as [K S W L T O N P F Q].
+  destruct (do_sync_frame _ _ _ Ed) as [F1 [F2 [F3 [F4 [F5 [F6 [F7 [F8 F9]]]]]]]].
+  destruct (do_sync_cur _ _ _ H Ed) as [C1 [C2 C3]].
+  assert (Hcls : pendingb (pc data s) = false /\ closedb (pc data s) = false /\
+                 freeb (pc data s) = false /\ postpendb (pc data s) = false /\
+                 lost_okb (pc data s) (gen data s) = false /\ relb (pc data s) = false).
+  { destruct Hp as [[Hp _]|[[m [hg [Hp _]]]|[[hg [Hp _]]|[Hp _]]]];
+      rewrite Hp; unfold freeb; cbn -[Nat.ltb]; rewrite ?andb_false_r; auto 10. }
+  destruct Hcls as [Q1 [Q2 [Q3 [Q4 [Q5 Q6]]]]].
+  assert (HnotLost : cur data s = Lost -> l0 data s = []).
+  { intros A. destruct (L A) as [B|[B|[B|B]]]; [exact B|congruence|congruence|congruence]. }
+  assert (HL1 : cur data s1 <> Lost).
+  { intros A. destruct (C2 A) as [B1 B2]. apply B2. apply HnotLost. exact B1. }
+  assert (Hend : toend data s = true -> at_end (set_pc data s1 p)).
+  { intros A. unfold at_end. cbn. right. left. rewrite F1. apply C3; assumption. }
+  constructor; cbn; rewrite ?F1, ?F2, ?F3, ?F4, ?F6, ?F7.
+  - intros Hw Hml Hbf.
+    destruct (K Hw Hml Hbf) as [A|[A|[A|[A|A]]]]; try congruence.
+    left. unfold at_end in *. cbn. apply C1. exact A.
+  - intros A.
+    destruct Hp as [[Hp Hq]|[[m [hg [Hp Hq]]]|[[hg [Hp Hq]]|[Hp Hq]]]]; subst p; try discriminate.
+    assert (Hw : wlock data s = true) by (apply W; rewrite Hp; reflexivity).
+    split; [exact Hw|]. apply Hend. unfold toend. rewrite Hw. reflexivity.
+  - intros A.
+    destruct Hp as [[Hp Hq]|[[m [hg [Hp Hq]]]|[[hg [Hp Hq]]|[Hp Hq]]]]; subst p; discriminate.
+  - intros A. contradiction.
+  - intros hg A.
+    destruct Hp as [[Hp Hq]|[[m [hg' [Hp Hq]]]|[[hg' [Hp Hq]]|[Hp Hq]]]]; subst p; try discriminate;
+      cbn in A; inversion A; subst; destruct (T hg) as [T1 _]; try (rewrite Hp; reflexivity);
+      (split; [exact T1|split; discriminate]).
+  - rewrite F8. discriminate.
+  - intros A. destruct (N A) as [B|[B|B]]; congruence.
+  - rewrite F8. discriminate.
+  - intros m A.
+    destruct Hp as [[Hp Hq]|[[m' [hg' [Hp Hq]]]|[[hg' [Hp Hq]]|[Hp Hq]]]]; subst p; discriminate.
+  - intros A.
+    destruct Hp as [[Hp Hq]|[[m' [hg' [Hp Hq]]]|[[hg' [Hp Hq]]|[Hp Hq]]]]; subst p; discriminate.
+Qed.
+
+(** the copy of commit 6edd82b *)
+Lemma safe_postcopy s k s1 m hg pre wn :
+  inv s -> safe s -> do_sync data lock s k = Some s1 ->
+  pc data s = PMid m hg pre wn false -> frb m = true ->
+  safe (set_pc data s1 (PPost m hg pre wn)).
+Proof.
+  intros H Hs Ed Epc Hf. pose proof Hs as [K S W L T O N P F Q].
+  destruct (do_sync_frame _ _ _ Ed) as [F1 [F2 [F3 [F4 [F5 [F6 [F7 [F8 F9]]]]]]]].
+  destruct (do_sync_cur _ _ _ H Ed) as [C1 [C2 C3]].
+  rewrite Epc in *.
+  destruct (T hg eq_refl) as [T1 _].
+  assert (Hpend : pendingb (PMid m hg pre wn false) = false) by (destruct m; try discriminate; reflexivity).
+  assert (Hlost : cur data s = Lost -> l0 data s = [] \/ (recheck = true /\ hg < gen data s)).
+  { intros A. destruct (L A) as [B|[B|[B|B]]]; [auto|congruence|discriminate|].
+    right. cbn -[Nat.ltb] in B. rewrite Hf in B. cbn -[Nat.ltb] in B.
+    apply andb_prop in B. destruct B as [B1 B2]. apply Nat.ltb_lt in B1. auto. }
+  assert (Htoend : toend data s = true) by (unfold toend; rewrite Epc; cbn; apply orb_true_r).
+  assert (Hend : (recheck = false \/ gen data s = hg) -> at_end (set_pc data s1 (PPost m hg pre wn))).
+  { intros Hc. unfold at_end. cbn. right. left. rewrite F1. apply C3; [exact Htoend|].
+    intros A. destruct (Hlost A) as [B|[B1 B2]]; [exact B|]. destruct Hc; [congruence|lia]. }
+  constructor; cbn -[Nat.ltb]; rewrite ?F1, ?F2, ?F3, ?F4, ?F6, ?F7.
+  - intros _ _ _. destruct recheck eqn:Er.
+    + right. right. right. left. unfold freeb. cbn. reflexivity.
+    + left. apply Hend. auto.
+  - discriminate.
+  - discriminate.
+  - intros A. destruct (C2 A) as [B1 B2]. destruct (Hlost B1) as [B|[B3 B4]]; [contradiction|].
+    right. right. right. rewrite B3. apply Nat.ltb_lt. exact B4.
+  - intros hg' A. inversion A; subst hg'. split; [exact T1|split; discriminate].
+  - rewrite F8. discriminate.
+  - intros A. destruct (N A) as [B|[B|B]]; try discriminate. congruence.
+  - rewrite F8. discriminate.
+  - intros m' A. inversion A; subst. exact Hf.
+  - intros _ hg' A B _ _ _. inversion A; subst hg'. apply Hend. auto.
+Qed.
+
+Lemma set_pc_self (s : state) : set_pc data s (pc data s) = s.
+Proof. destruct s. reflexivity. Qed.
+
+Lemma safe_LsSync s k s' :
+  inv s -> safe s -> step s (LsSync data k) = Some s' -> safe s'.
+Proof.
+  intros H Hs E. cbn in E.
+  destruct (pc data s) as [|m hg|m hg|hg|hg| | |m hg pre wn rb| | | | | | |] eqn:Epc; try discriminate.
+  - destruct (do_sync_frame _ _ _ E) as [_ [_ [_ [_ [F5 _]]]]]. rewrite Epc in F5.
+    rewrite <- (set_pc_self s'). rewrite F5. eapply safe_sync_gen; eauto.
+  - destruct (do_sync data lock s k) eqn:Ed; [|discriminate]. inversion E; subst s'.
+    eapply safe_sync_gen; eauto. right. left. eauto.
+  - destruct (do_sync data lock s k) eqn:Ed; [|discriminate]. inversion E; subst s'.
+    eapply safe_sync_gen; eauto. right. right. left. eauto.
+  - destruct (needs_post true m rb) eqn:En; [|discriminate].
+    destruct (do_sync data lock s k) eqn:Ed; [|discriminate]. inversion E; subst s'.
+    unfold needs_post in En. cbn in En. apply andb_prop in En. destruct En as [Hf Hr].
+    apply negb_true_iff in Hr. subst rb.
+    eapply safe_postcopy; eauto.
+  - destruct (do_sync data lock s k) eqn:Ed; [|discriminate]. inversion E; subst s'.
+    eapply safe_sync_gen; eauto.
+Qed.
+
+Lemma safe_LsOpen s s' : inv s -> safe s -> step s (LsOpen data) = Some s' -> safe s'.
+Proof.
+  intros H Hs E. cbn in E. pose proof Hs as [K S W L T O N P F Q].
+  destruct (opened data s) eqn:Eo; [discriminate|]. destruct (pc data s) eqn:Epc; try discriminate.
+  inversion E; subst s'. clear E.
+  constructor; cbn; rewrite ?Epc; cbn; triv.
+  - intros _ _ _. left. left. apply O. reflexivity.
+  - unfold acquire. destruct (backfilled data s =? length (txs data s)); discriminate.
+Qed.
+
+Lemma safe_LsAck s s' : inv s -> safe s -> step s (LsAck data) = Some s' -> safe s'.
+Proof.
+  intros H Hs E. cbn in E. pose proof Hs as [K S W L T O N P F Q].
+  destruct (pc data s) eqn:Epc; try discriminate. destruct (l0 data s) eqn:El; [discriminate|].
+  destruct ((cgen data s =? gen data s) && (cfo data s =? flen data (txs data s))); [|discriminate].
+  inversion E; subst s'. clear E.
+  constructor; cbn; rewrite ?Epc, ?El in *; assumption.
+Qed.
+
 Lemma safe_LsCkStart s m s' : inv s -> safe s -> step s (LsCkStart data m) = Some s' -> safe s'.
 Proof.
-  intros H Hs E. cbn in E. pose proof Hs as [K S W L T O N P R X V].
+  intros H Hs E. cbn in E. pose proof Hs as [K S W L T O N P F Q].
   destruct (pc data s) eqn:Epc; try discriminate. destruct (phys data s); [discriminate|].
   destruct (opened data s) eqn:Eo; [|discriminate]. inversion E; subst s'. clear E.
   constructor; cbn in *; fin2.
@@ -571,8 +583,8 @@ Qed.
 
 Lemma safe_LsLockWrite s s' : inv s -> safe s -> step s (LsLockWrite data) = Some s' -> safe s'.
 Proof.
-  intros H Hs E. cbn in E. pose proof Hs as [K S W L T O N P R X V].
-  destruct (pc data s) as [| |m0 hg0| | | | | | | |p|p|] eqn:Epc; try discriminate.
+  intros H Hs E. cbn in E. pose proof Hs as [K S W L T O N P F Q].
+  destruct (pc data s) as [| |m0 hg0| | | | | | | | | |p|p|] eqn:Epc; try discriminate.
   - destruct m0; try discriminate. inversion E; subst s'. clear E.
     constructor; cbn in *; fin2.
   - inversion E; subst s'. clear E.
@@ -581,8 +593,8 @@ Qed.
 
 Lemma safe_LsRelease s s' : inv s -> safe s -> step s (LsRelease data) = Some s' -> safe s'.
 Proof.
-  intros H Hs E. cbn in E. pose proof Hs as [K S W L T O N P R X V].
-  destruct (pc data s) as [| |m0 hg0| |hg0| | | | | | | |] eqn:Epc; try discriminate.
+  intros H Hs E. cbn in E. pose proof Hs as [K S W L T O N P F Q].
+  destruct (pc data s) as [| |m0 hg0| |hg0| | | | | | | | | |] eqn:Epc; try discriminate.
   - destruct (mode_eqb m0 Passive) eqn:Em; [discriminate|]. inversion E; subst s'. clear E.
     destruct m0; try discriminate; constructor; cbn in *; fin2.
   - inversion E; subst s'. clear E.
@@ -592,8 +604,8 @@ Qed.
 
 Lemma safe_LsCkpt s j sz s' : inv s -> safe s -> step s (LsCkpt data j sz) = Some s' -> safe s'.
 Proof.
-  intros H Hs E. cbn in E. pose proof Hs as [K S W L T O N P R X V].
-  destruct (pc data s) as [| | | | |m0 hg0 pre0| | | | | | |] eqn:Epc; try discriminate.
+  intros H Hs E. cbn in E. pose proof Hs as [K S W L T O N P F Q].
+  destruct (pc data s) as [| | | | |m0 hg0 pre0| | | | | | | | |] eqn:Epc; try discriminate.
   destruct (ls_mark data s) eqn:Em; [discriminate|].
   destruct m0.
   - destruct ((backfilled data s <=? j) && (j <=? length (txs data s))); [|discriminate].
@@ -602,120 +614,128 @@ Proof.
   - destruct (j =? length (txs data s)) eqn:Ej; [|discriminate]. apply Nat.eqb_eq in Ej.
     inversion E; subst s'. clear E.
     constructor; cbn in *; rewrite ?Em in *; fin2.
-    intros hg wn bb A C. inversion A; subst. unfold flen. split; [lia|]. split; [reflexivity|discriminate].
   - destruct (j =? length (txs data s)) eqn:Ej; [|discriminate]. apply Nat.eqb_eq in Ej.
     inversion E; subst s'. clear E.
     constructor; cbn in *; rewrite ?Em in *; fin2.
-    intros hg wn bb A C. inversion A; subst. unfold flen. split; [lia|]. split; [reflexivity|discriminate].
   - destruct (j =? length (txs data s)) eqn:Ej; [|discriminate]. apply Nat.eqb_eq in Ej.
     inversion E; subst s'. clear E.
     constructor; cbn in *; rewrite ?Em in *; fin2.
-    intros hg A. inversion A; subst. destruct (T hg eq_refl) as [T1 _].
-    split; [lia|]. split; [intros _; lia|discriminate].
 Qed.
 
 Lemma safe_LsReacquire s s' : inv s -> safe s -> step s (LsReacquire data) = Some s' -> safe s'.
 Proof.
-  intros H Hs E. cbn in E. pose proof Hs as [K S W L T O N P R X V].
-  destruct (pc data s) as [| | | | | |m0 hg0 pre0 wn0| | | | | |] eqn:Epc; try discriminate.
+  intros H Hs E. cbn in E. pose proof Hs as [K S W L T O N P F Q].
+  destruct (pc data s) as [| | | | | |m0 hg0 pre0 wn0| | | | | | | |] eqn:Epc; try discriminate.
   destruct (ls_mark data s) eqn:Em; [discriminate|].
   inversion E; subst s'. clear E.
   destruct m0; constructor; cbn in *; rewrite ?Epc in *; cbn in *; fin2.
-  - intros A. destruct (S eq_refl). congruence.
-  - intros hg wn bb A C. destruct (V hg wn bb A C) as [V1 [V2 V3]]. split; [exact V1|]. split; [|exact V3].
-    intros B _. apply V2; [exact B|reflexivity].
-  - intros hg wn bb A C. destruct (V hg wn bb A C) as [V1 [V2 V3]]. split; [exact V1|]. split; [|exact V3].
-    intros B _. apply V2; [exact B|reflexivity].
+  intros A. destruct (S eq_refl). congruence.
 Qed.
 
-(** the header re-read of the fix: this is where FULL/RESTART become safe *)
-Lemma safe_unlock_fr s m hg pre wn n :
-  inv s -> safe s -> pc data s = PCkpted m hg pre wn -> frb m = true -> ls_mark data s = Some n ->
-  safe (set_wlock data (set_pc data s (PUnlocked m hg pre wn (mid_restarted true m hg (gen data s)))) false).
+(** the header re-read of commit 80a5b27 *)
+Lemma safe_LsMid s s' : inv s -> safe s -> step s (LsMid data) = Some s' -> safe s'.
 Proof.
-  intros H Hs Epc Hf Em. pose proof Hs as [K S W L T O N P R X V].
-  rewrite Epc in *.
-  destruct (T hg eq_refl) as [T1 _].
-  assert (Hrb : mid_restarted true m hg (gen data s) = negb (hg =? gen data s)).
-  { unfold mid_restarted. rewrite Hf. reflexivity. }
-  rewrite Hrb.
-  assert (Hpend : pendingb (PCkpted m hg pre wn) = false) by (destruct m; try discriminate; reflexivity).
-  constructor; cbn -[Nat.ltb Nat.eqb]; rewrite ?Hf; cbn -[Nat.ltb Nat.eqb].
-  - intros _ Hml Hbf.
-    destruct (hg =? gen data s) eqn:Eg; cbn -[Nat.ltb]; [|auto 8].
-    apply Nat.eqb_eq in Eg.
-    destruct (X Hf hg eq_refl (eq_sym Eg)) as [c Ec].
-    pose proof (i_cur _ _ _ _ H) as Hc. unfold cur_inv in Hc. rewrite Ec in Hc.
-    destruct Hc as [Hle [_ [Hcfo _]]].
-    assert (Hv : vinfo (PCkpted m hg pre wn) = Some (hg, wn, false)) by (cbn; rewrite Hf; reflexivity).
-    destruct (V hg wn false Hv (eq_sym Eg)) as [_ [V2 _]].
-    specialize (V2 Hbf Hml).
-    destruct (Nat.eq_dec c (length (txs data s))) as [Ee|Ee].
-    + left. unfold at_end. cbn. right. left. rewrite Ec. f_equal. exact Ee.
-    + right. right. right. right.
-      apply Nat.ltb_lt. rewrite (R pre eq_refl), Hcfo, <- V2.
-      apply flen_firstn_lt; [|lia].
-      eapply txs_ok_nonempty. apply (i_txs _ _ _ _ H).
-  - discriminate.
-  - discriminate.
-  - intros A. destruct (L A) as [B|[B|[B|B]]]; [left; exact B|congruence|discriminate|].
-    right. right. right. cbn -[Nat.ltb] in B. rewrite Hf in B. cbn -[Nat.ltb] in B.
-    rewrite B. apply Nat.ltb_lt in B.
-    replace (hg =? gen data s) with false by (symmetry; apply Nat.eqb_neq; lia). reflexivity.
-  - intros hg' A. inversion A; subst hg'. split; [exact T1|]. split.
-    + destruct m; discriminate.
-    + intros B. apply negb_true_iff in B. apply Nat.eqb_neq in B. lia.
-  - exact O.
-  - rewrite Em. discriminate.
-  - intros A. specialize (P A). discriminate.
-  - intros pre' A. apply R. exact A.
-  - intros _ hg' A B. apply (X Hf hg' A B).
-  - intros hg' wn' bb A B. apply (V hg' wn' bb); [|exact B]. cbn. rewrite Hf. exact A.
+  intros H Hs E. cbn in E. pose proof Hs as [K S W L T O N P F Q].
+  destruct (pc data s) as [| | | | | |m0 hg0 pre0 wn0| | | | | | | |] eqn:Epc; try discriminate.
+  destruct (ls_mark data s) eqn:Em; [|discriminate].
+  inversion E; subst s'. clear E.
+  destruct (T hg0 eq_refl) as [T1 [T2 _]].
+  destruct m0; unfold mid_restarted; cbn [frb andb].
+  - destruct (S eq_refl) as [S1 S2]. constructor; cbn in *; fin2.
+  - destruct (hg0 =? gen data s) eqn:Eg; cbn [negb].
+    + apply Nat.eqb_eq in Eg.
+      constructor; cbn -[Nat.ltb] in *; fin2.
+      all: try solve [intros _ _ _; auto 8].
+      all: try solve [intros A; destruct (L A) as [B|[B|[B|B]]]; try discriminate; [auto|];
+                      apply Nat.ltb_lt in B; lia].
+    + apply Nat.eqb_neq in Eg.
+      constructor; cbn -[Nat.ltb] in *; fin2.
+      all: try solve [intros _ _ _; auto 8].
+      all: try solve [intros A; destruct (L A) as [B|[B|[B|B]]]; try discriminate; [auto|];
+                      right; right; right; rewrite B; reflexivity].
+      all: try solve [intros hg A; inversion A; subst; split; [exact T1|]; split; [discriminate|]; intros _; lia].
+  - destruct (hg0 =? gen data s) eqn:Eg; cbn [negb].
+    + apply Nat.eqb_eq in Eg.
+      constructor; cbn -[Nat.ltb] in *; fin2.
+      all: try solve [intros _ _ _; auto 8].
+      all: try solve [intros A; destruct (L A) as [B|[B|[B|B]]]; try discriminate; [auto|];
+                      apply Nat.ltb_lt in B; lia].
+    + apply Nat.eqb_neq in Eg.
+      constructor; cbn -[Nat.ltb] in *; fin2.
+      all: try solve [intros _ _ _; auto 8].
+      all: try solve [intros A; destruct (L A) as [B|[B|[B|B]]]; try discriminate; [auto|];
+                      right; right; right; rewrite B; reflexivity].
+      all: try solve [intros hg A; inversion A; subst; split; [exact T1|]; split; [discriminate|]; intros _; lia].
+  - constructor; cbn in *; fin2.
+Qed.
+
+Lemma safe_unlock_post s m hg pre wn :
+  inv s -> safe s -> pc data s = PPost m hg pre wn ->
+  safe (set_pc data s (PUnlocked m hg pre wn (recheck && negb (hg =? gen data s)))).
+Proof.
+  intros H Hs Epc. pose proof Hs as [K S W L T O N P F Q]. rewrite Epc in *.
+  destruct (T hg eq_refl) as [T1 _]. pose proof (F m eq_refl) as Hf.
+  destruct (recheck && negb (hg =? gen data s)) eqn:Erb.
+  - apply andb_prop in Erb. destruct Erb as [Er Eg]. apply negb_true_iff in Eg. apply Nat.eqb_neq in Eg.
+    constructor; cbn -[Nat.ltb]; rewrite ?Hf; cbn -[Nat.ltb]; triv.
+    all: try solve [intros _ _ _; right; right; right; left; unfold freeb; cbn; rewrite Hf; reflexivity].
+    all: try solve [intros A; destruct (L A) as [B|[B|[B|B]]]; try discriminate; [auto|];
+                    right; right; right; cbn -[Nat.ltb] in B; apply andb_prop in B; destruct B as [_ B];
+                    rewrite B; reflexivity].
+    all: try solve [intros hg' A; inversion A; subst; split; [exact T1|]; split; [destruct m; discriminate|]; intros _; lia].
+    all: try solve [intros A; destruct (N A) as [B|[B|B]]; auto; discriminate].
+    all: try solve [intros A; specialize (P A); discriminate].
+  - assert (Hc : recheck = false \/ gen data s = hg).
+    { destruct recheck; [right|left; reflexivity]. cbn in Erb. apply negb_false_iff in Erb.
+      apply Nat.eqb_eq in Erb. congruence. }
+    constructor; cbn -[Nat.ltb]; rewrite ?Hf; cbn -[Nat.ltb]; triv.
+    all: try solve [intros A B C; left; destruct Hc as [Hc|Hc];
+                    [destruct (K A B C) as [D|[D|[D|[D|D]]]]; try discriminate; [exact D|];
+                     unfold freeb in D; rewrite Hc in D; cbn in D; discriminate
+                    |apply (Q eq_refl hg eq_refl Hc A B C)]].
+    all: try solve [intros A; destruct (L A) as [B|[B|[B|B]]]; try discriminate; [auto|];
+                    exfalso; cbn -[Nat.ltb] in B; apply andb_prop in B; destruct B as [B1 B2];
+                    apply Nat.ltb_lt in B2; destruct Hc; [congruence|lia]].
+    all: try solve [intros hg' A; inversion A; subst; split; [exact T1|]; split; [destruct m; discriminate|discriminate]].
+    all: try solve [intros A; destruct (N A) as [B|[B|B]]; auto; discriminate].
+    all: try solve [intros A; specialize (P A); discriminate].
 Qed.
 
 Lemma safe_LsUnlock s s' : inv s -> safe s -> step s (LsUnlock data) = Some s' -> safe s'.
 Proof.
-  intros H Hs E. cbn in E. pose proof Hs as [K S W L T O N P R X V].
-  destruct (pc data s) as [| | | | | |m0 hg0 pre0 wn0| | | | | |] eqn:Epc; try discriminate.
-  destruct (ls_mark data s) eqn:Em; [|discriminate].
-  inversion E; subst s'. clear E.
-  destruct m0.
-  - destruct (S eq_refl) as [S1 S2].
-    constructor; cbn in *; rewrite ?Em in *; fin2.
-  - eapply safe_unlock_fr; eauto.
-  - eapply safe_unlock_fr; eauto.
-  - constructor; cbn in *; rewrite ?Em in *; fin2.
+  intros H Hs E. cbn in E. pose proof Hs as [K S W L T O N P F Q].
+  destruct (pc data s) as [| | | | | | |m0 hg0 pre0 wn0 rb0|m1 hg1 pre1 wn1| | | | | |] eqn:Epc; try discriminate.
+  - destruct (needs_post true m0 rb0) eqn:En; [discriminate|].
+    inversion E; subst s'. clear E.
+    unfold needs_post in En. cbn [andb] in En.
+    destruct m0; cbn in En.
+    + destruct (S eq_refl) as [S1 S2]. constructor; cbn in *; fin2.
+    + apply negb_false_iff in En. subst rb0. constructor; cbn -[Nat.ltb] in *; fin2.
+    + apply negb_false_iff in En. subst rb0. constructor; cbn -[Nat.ltb] in *; fin2.
+    + constructor; cbn in *; fin2.
+  - inversion E; subst s'. clear E. apply safe_unlock_post; assumption.
 Qed.
 
 Lemma safe_bump_pc s1 m hg pre wn rb :
   safe s1 -> pc data s1 = PUnlocked m hg pre wn rb ->
-  (gen data s1 = hg -> frb m = true -> wn < flen data (txs data s1)) ->
   safe (set_pc data s1 (PBumped m hg pre wn rb)).
 Proof.
-  intros Hs Epc Hgrow. pose proof Hs as [K S W L T O N P R X V]. rewrite Epc in *.
-  constructor; cbn -[Nat.ltb] in *; try assumption.
-  - intros A. specialize (P A). discriminate.
-  - intros hg' wn' bb A. destruct (frb m) eqn:Hf; [|discriminate]. inversion A; subst hg' wn' bb.
-    intros C. destruct (V hg wn false eq_refl C) as [V1 [V2 _]].
-    split; [exact V1|]. split; [exact V2|]. intros _. apply Hgrow; auto.
+  intros Hs Epc. pose proof Hs as [K S W L T O N P F Q]. rewrite Epc in *.
+  constructor; cbn -[Nat.ltb] in *; try assumption; triv.
+  all: try solve [intros A; specialize (P A); discriminate].
 Qed.
 
 Lemma safe_LsBump s t r s' :
-  inv s -> safe s -> t <> [] -> step s (LsBump data t r) = Some s' -> safe s'.
+  inv s -> safe s -> step s (LsBump data t r) = Some s' -> safe s'.
 Proof.
-  intros H Hs Hne E. cbn in E.
-  destruct (pc data s) as [| | | | | | |m0 hg0 pre0 wn0 rb0| | | | |] eqn:Epc; try discriminate.
+  intros H Hs E. cbn in E.
+  destruct (pc data s) as [| | | | | | | | |m0 hg0 pre0 wn0 rb0| | | | |] eqn:Epc; try discriminate.
   destruct (do_commit data s t r) as [s1|] eqn:Ed; [|discriminate].
   inversion E; subst s'. clear E.
-  destruct (safe_commit_same _ _ _ _ H Hs Hne Ed) as [Hs1 Hgrow].
-  destruct (do_commit_facts _ _ _ _ H Hs Ed) as [_ [_ [_ [_ [Hpc [_ [_ [_ Hd]]]]]]]].
-  apply safe_bump_pc; [exact Hs1|congruence|].
-  intros Hg Hf.
-  destruct (s_T _ Hs hg0) as [T1 _]; [rewrite Epc; reflexivity|].
-  destruct Hd as [[B1 _]|[B1 _]]; [|lia].
-  specialize (Hgrow B1).
-  destruct (s_V _ Hs hg0 wn0 false) as [V1 _]; [rewrite Epc; cbn; rewrite Hf; reflexivity|congruence|].
-  lia.
+  assert (Hs1 : safe s1).
+  { apply (safe_commit_same s t r s1 H Hs); [|exact Ed]. intros _. right. rewrite Epc. reflexivity. }
+  destruct (do_commit_facts _ _ _ _ H Hs Ed) as [_ [_ [_ [_ [Hpc _]]]]].
+  apply safe_bump_pc; [exact Hs1|congruence].
 Qed.
 
 Lemma safe_cmp_plain s m hg pre wn rb p :
@@ -725,7 +745,7 @@ Lemma safe_cmp_plain s m hg pre wn rb p :
   (cur data s = Lost -> l0 data s = []) ->
   safe (set_pc data s p).
 Proof.
-  intros Hs Epc Hp HK HL. pose proof Hs as [K S W L T O N P R X V]. rewrite Epc in *.
+  intros Hs Epc Hp HK HL. pose proof Hs as [K S W L T O N P F Q]. rewrite Epc in *.
   destruct Hp; subst p; constructor; cbn in *; triv; auto.
   all: try solve [intros A; destruct (N A) as [B|[B|B]]; auto; discriminate].
   all: try solve [intros A; specialize (P A); discriminate].
@@ -734,7 +754,7 @@ Qed.
 Lemma safe_cmp_boundary s m hg pre wn rb :
   safe s -> pc data s = PBumped m hg pre wn rb -> safe (set_pc data s PBoundary).
 Proof.
-  intros Hs Epc. pose proof Hs as [K S W L T O N P R X V]. rewrite Epc in *.
+  intros Hs Epc. pose proof Hs as [K S W L T O N P F Q]. rewrite Epc in *.
   constructor; cbn in *; triv; auto.
   all: try solve [intros A; destruct (N A) as [B|[B|B]]; auto; discriminate].
   all: try solve [intros A; specialize (P A); discriminate].
@@ -742,52 +762,51 @@ Qed.
 
 Lemma safe_LsCmpHdr s s' : inv s -> safe s -> step s (LsCmpHdr data) = Some s' -> safe s'.
 Proof.
-  intros H Hs E. cbn in E. pose proof Hs as [K S W L T O N P R X V].
-  destruct (pc data s) as [| | | | | | | |m hg pre wn rb| | | |] eqn:Epc; try discriminate.
+  intros H Hs E. cbn in E. pose proof Hs as [K S W L T O N P F Q].
+  destruct (pc data s) as [| | | | | | | | | |m hg pre wn rb| | | |] eqn:Epc; try discriminate.
   destruct (T hg eq_refl) as [T1 [T2 T3]].
+  assert (Hfree : freeb (PBumped m hg pre wn rb) = true -> frb m = true /\ rb = true).
+  { unfold freeb. cbn. rewrite andb_false_r, orb_false_r. intros A. apply andb_prop in A. exact A. }
+  assert (Hlok : forall g, lost_okb (PBumped m hg pre wn rb) g = true -> frb m = true /\ rb = true /\ hg < g).
+  { intros g A. cbn -[Nat.ltb] in A. apply andb_prop in A. destruct A as [A A3].
+    apply andb_prop in A. destruct A as [A1 A2]. apply Nat.ltb_lt in A2. auto. }
   unfold ck_decide in E.
   destruct (hg =? gen data s) eqn:Eg.
   - (* header unchanged *)
     apply Nat.eqb_eq in Eg. inversion E; subst s'. clear E.
     eapply safe_cmp_plain; eauto.
-    + intros A B C. destruct (K A B C) as [D|[D|[D|[D|D]]]]; try discriminate; [exact D| |].
+    + intros A B C. destruct (K A B C) as [D|[D|[D|[D|D]]]];
+        [exact D| |cbn in D; discriminate| |cbn in D; discriminate].
       * exfalso. cbn in D. destruct m; try discriminate. specialize (T2 eq_refl). lia.
-      * exfalso. cbn -[Nat.ltb] in D. apply andb_prop in D. destruct D as [Hf _].
-        destruct (V hg wn true) as [_ [V2 V3]]; [cbn; rewrite Hf; reflexivity|congruence|].
-        specialize (V2 C B). specialize (V3 eq_refl). lia.
-    + intros A. destruct (L A) as [D|[D|[D|D]]]; try discriminate; [exact D| |].
+      * exfalso. destruct (Hfree D) as [_ D2]. specialize (T3 D2). lia.
+    + intros A. destruct (L A) as [D|[D|[D|D]]]; [exact D| |cbn in D; discriminate|].
       * exfalso. cbn in D. destruct m; try discriminate. specialize (T2 eq_refl). lia.
-      * exfalso. destruct (lost_ok_hg _ _ D) as [hg' [D1 D2]]. cbn in D1. inversion D1; subst. lia.
-  - destruct m.
-    + inversion E; subst s'. clear E. eapply safe_cmp_plain; eauto.
-      * intros A B C. destruct (K A B C) as [D|[D|[D|[D|D]]]]; try discriminate; exact D.
-      * intros A. destruct (L A) as [D|[D|[D|D]]]; try discriminate; exact D.
+      * exfalso. destruct (Hlok _ D) as [_ [_ D3]]. lia.
+  - assert (Hplain : rb = false \/ frb m = false ->
+                     safe (set_pc data s PRecopy) \/ pendingb (PBumped m hg pre wn rb) = true).
+    { intros Hc. destruct (pendingb (PBumped m hg pre wn rb)) eqn:Ep; [auto|]. left.
+      eapply safe_cmp_plain; eauto.
+      - intros A B C. destruct (K A B C) as [D|[D|[D|[D|D]]]];
+          [exact D|discriminate|cbn in D; discriminate| |cbn in D; discriminate].
+        exfalso. destruct (Hfree D) as [D1 D2]. destruct Hc; congruence.
+      - intros A. destruct (L A) as [D|[D|[D|D]]]; [exact D|discriminate|cbn in D; discriminate|].
+        exfalso. destruct (Hlok _ D) as [D1 [D2 _]]. destruct Hc; congruence. }
+    destruct m.
+    + inversion E; subst s'. clear E. destruct Hplain as [A|A]; [right; reflexivity|exact A|discriminate].
     + destruct (negb rb && (wn <=? pre)) eqn:Ec.
-      * apply andb_prop in Ec. destruct Ec as [Erb Ele]. apply negb_true_iff in Erb.
-        apply Nat.leb_le in Ele. subst rb.
-        assert (Hlt : (pre <? wn) = false) by (apply Nat.ltb_ge; exact Ele).
-        inversion E; subst s'. clear E. eapply safe_cmp_plain; eauto.
-        -- intros A B C. destruct (K A B C) as [D|[D|[D|[D|D]]]]; try discriminate; [exact D|].
-           cbn -[Nat.ltb] in D. rewrite Hlt in D. discriminate.
-        -- intros A. destruct (L A) as [D|[D|[D|D]]]; try discriminate; [exact D|].
-           cbn -[Nat.ltb] in D. rewrite Hlt in D. rewrite andb_false_r in D. discriminate.
+      * apply andb_prop in Ec. destruct Ec as [Erb _]. apply negb_true_iff in Erb.
+        inversion E; subst s'. clear E. destruct Hplain as [A|A]; [left; exact Erb|exact A|discriminate].
       * inversion E; subst s'. clear E. eapply safe_cmp_boundary; eauto.
     + destruct (negb rb && (wn <=? pre)) eqn:Ec.
-      * apply andb_prop in Ec. destruct Ec as [Erb Ele]. apply negb_true_iff in Erb.
-        apply Nat.leb_le in Ele. subst rb.
-        assert (Hlt : (pre <? wn) = false) by (apply Nat.ltb_ge; exact Ele).
-        inversion E; subst s'. clear E. eapply safe_cmp_plain; eauto.
-        -- intros A B C. destruct (K A B C) as [D|[D|[D|[D|D]]]]; try discriminate; [exact D|].
-           cbn -[Nat.ltb] in D. rewrite Hlt in D. discriminate.
-        -- intros A. destruct (L A) as [D|[D|[D|D]]]; try discriminate; [exact D|].
-           cbn -[Nat.ltb] in D. rewrite Hlt in D. rewrite andb_false_r in D. discriminate.
+      * apply andb_prop in Ec. destruct Ec as [Erb _]. apply negb_true_iff in Erb.
+        inversion E; subst s'. clear E. destruct Hplain as [A|A]; [left; exact Erb|exact A|discriminate].
       * inversion E; subst s'. clear E. eapply safe_cmp_boundary; eauto.
     + inversion E; subst s'. clear E. eapply safe_cmp_boundary; eauto.
 Qed.
 
 Lemma safe_LsBoundarySnap s s' : inv s -> safe s -> step s (LsBoundarySnap data) = Some s' -> safe s'.
 Proof.
-  intros H Hs E. cbn in E. pose proof Hs as [K S W L T O N P R X V].
+  intros H Hs E. cbn in E. pose proof Hs as [K S W L T O N P F Q].
   destruct (pc data s) eqn:Epc; try discriminate. destruct (phys data s) eqn:Ep; [discriminate|].
   inversion E; subst s'. clear E.
   constructor; cbn; triv.
@@ -798,19 +817,19 @@ Qed.
 
 Lemma safe_LsClose s s' : inv s -> safe s -> step s (LsClose data) = Some s' -> safe s'.
 Proof.
-  intros H Hs E. cbn in E. pose proof Hs as [K S W L T O N P R X V].
+  intros H Hs E. cbn in E. pose proof Hs as [K S W L T O N P F Q].
   destruct (pc data s) eqn:Epc; try discriminate. destruct (opened data s) eqn:Eo; [|discriminate].
   inversion E; subst s'. clear E.
   constructor; cbn; triv; auto 6.
 Qed.
 
-(** ** every step preserves [safe] (fixed control flow) *)
+(** ** every step preserves [safe] (control flow with both fixes) *)
 Theorem safe_step s l s' :
-  inv s -> safe s -> label_ok data lock s l -> window_ok data s l = true ->
+  inv s -> safe s -> window_ok data true recheck s l = true ->
   step s l = Some s' -> safe s'.
 Proof.
-  intros H Hs Hok Hwin E. destruct l.
-  - eapply safe_AppCommit; eauto. cbn in Hok. eapply tx_ok_nonempty; eauto.
+  intros H Hs Hwin E. destruct l.
+  - eapply safe_AppCommit; eauto.
   - eapply safe_AppCkpt; eauto.
   - eapply safe_AppTruncate; eauto.
   - eapply safe_LsOpen; eauto.
@@ -821,8 +840,9 @@ Proof.
   - eapply safe_LsRelease; eauto.
   - eapply safe_LsCkpt; eauto.
   - eapply safe_LsReacquire; eauto.
+  - eapply safe_LsMid; eauto.
   - eapply safe_LsUnlock; eauto.
-  - eapply safe_LsBump; eauto. cbn in Hok. eapply tx_ok_nonempty; eauto.
+  - eapply safe_LsBump; eauto.
   - eapply safe_LsCmpHdr; eauto.
   - eapply safe_LsBoundarySnap; eauto.
   - eapply safe_LsClose; eauto.
